@@ -179,7 +179,11 @@ class IndexValidate(Contract):
             k = p.choose([(n, None) for n, _ in allowed], "array.validate")
             if k == 0:
                 return SeriesVal.fresh("validated_index", "real")
-            raise PyExc(I.make_exc(allowed[k][1]))
+            exc = I.make_exc(allowed[k][1])
+            if allowed[k][1] in (SchemaError, SchemaErrors):
+                # the failure cases of this error name the failing VALUES by the labels of the series that was validated
+                p.ghost["index_error_labelled_by_positions"] = getattr(check_obj, "positional_labels_of", None) is not None
+            raise PyExc(exc)
 
         I.models[id(AB.validate)] = array_validate
 
@@ -226,6 +230,16 @@ class IndexValidate(Contract):
             out["validated_against_the_index_schema"] = sch is schema
             out["subsampling_options_forwarded"] = all(ckw.get(o) is kw[o] for o in ("head", "tail", "sample", "random_state")) and ckw.get("lazy") is lazy
         return out
+
+    def on_raise(self, exc, old, self_, check_obj, schema, lazy, inplace, **kw):
+        if exc.cls not in (SchemaError, SchemaErrors):
+            return {}
+        pos = cur().ghost.get("index_error_labelled_by_positions")
+        if pos is None:
+            return {}
+        # C11: drop_invalid_rows removes rows BY LABEL (failure_cases['index']); an error about index values that names them by position
+        # makes it drop the rows that happen to carry those numbers as labels - and keep the invalid ones
+        return {"index_errors_name_the_failing_rows_by_their_own_labels": pos is False}
 
     def concretize(self, rec):
         def thunk():
